@@ -36,6 +36,28 @@ for p in ("C11 C12 C13 C14").split():
 
 NOT_APPLICABLE = {}
 
+LEVEL_TEXTS = {
+ "C01": "Every sequence up to length 4 (quick) / 5 (thorough) over alphabets 2..6, every motif up to length 3, every start in [-3, L+3] and every (start, end) pair is executed through the real edit primitives in all motif forms, plus seeded long batches; a string-level oracle and a byte-level immutability monitor judge each return value or exception. Exhaustive on the small scope, sampled beyond it.",
+ "C02": "Compiled shuffles on every sequence/region of the small scope and on random and very long regions (composition, flanks, one-hot, immutability, repeat-call determinism incl. numpy seeds and interleaved unrelated calls), and the dinucleotide walk executed for EVERY assignment of its internal permutations through an enumerating permutation source, with the kernel's own transition counters inspected after each walk.",
+ "C03": "A recording exact-arithmetic model logs which example and argument rows, training flags and grad mode every forward invocation sees; all (n, batch_size, #args, output kind) combinations up to n=16/40 are enumerated and the event log plus the returned value (values and dtypes) are checked against a per-example loop; BatchNorm/Dropout models in train, eval and mixed start states.",
+ "C04": "Generated sequential architectures (16 activations, max-pooling incl. overlapping/dilated/ceil and two pooling layers, integer/large/float weights, one-hot and non-one-hot references, call histories with overridden rules) are run through deep_lift_shap; raw and processed completeness are judged per example-reference pair against plain forward passes and the warnings module is monitored.",
+ "C05": "Multipliers, hypothetical and observed attributions are compared element-wise with an independent layer-by-layer rescale-rule evaluation (separate forwards of example and reference, single-layer VJPs, secant ratios), affine models also in closed form with re-randomised biases; includes call histories on the same model object (float32 then float64, prior rule overrides).",
+ "C06": "Differential monitor: for each generated model all batch sizes 1..n*n_shuffles+1, random subsets, permutations, duplications and repeated calls are compared with the single-batch baseline (attributions 1e-10, references and repeats bit-for-bit), with extra per-example args, scale-outlier examples and an interleaved rule-override call.",
+ "C08": "Index-carrying exact-integer models, a capturing func and (thorough) deep_lift_shap / saturation_mutagenesis as func; every entry of every wrapper output is compared with func applied to the explicitly constructed input that the index denotes, over all output kinds x annotation counts x shuffles x spacing grids x product sizes x batch sizes, plus seed call histories.",
+ "C09": "Exact-integer position-sensitive models (tensor/tuple/list outputs, trailing dims, mixed dtypes, per-example args, unknown positions); all windows incl. negative ends and all batch sizes on the small scope are executed and y0 / y_hat / attributions compared with explicit per-mutant forward passes and the documented formula.",
+ "C10": "A capturing func observes the tensors that reach func; every subset of <=3 deleted positions per example (both trim sides), insertions at every coordinate and substitution lists incl. repeated and conflicting rows are enumerated on small batches and judged against string-level editing; variant lists that cannot be honoured must raise.",
+ "C11": "Every entry of the p-value tables returned by the serial kernel (also under NUMBA_BOUNDSCHECK) and by the parallel driver is compared with the exact tail probability from an integer-count dynamic programme (cross-checked by enumerating all 4^w sequences for w<=7), widths 1-30; plus a fimo()-level call history checking every hit's p-value.",
+ "C12": "fimo() results for tensor and FASTA input, dim 0/1, return_counts, 1-16 threads, omp/workqueue, are compared window by window with a pure-Python scanner using exact tail tables; mirror property; call histories on the same motifs; the kernel additionally in numpy-bounds-checked py-mode and in a red-zone differential.",
+ "C13": "Bitwise differential of every query's result against the query processed alone on one thread, across thread counts, chunk sizes, threading layers, permutations, subsets, duplications; an in-kernel guarded trace hook records per-thread histories and a poison hook fills the thread's scratch before every query (results must not depend on the fill); n_nearest rows checked against the full row and against the alone run; drivers also under NUMBA_BOUNDSCHECK.",
+ "C14": "Every query/target pair of generated tomtom() calls is compared with an independent complete-score reference (alignment enumeration, convolution null distributions, strand merge) fed with the integerised matrix obtained from the implementation's own kernel under bounds checking; the matrix is monitored for range, histogram consistency and monotonicity in the exact distance; self-match, rc-swap, hashing, corner and call-history variants.",
+ "C15": "All strings up to length 6 over many alphabets/ignore sets, illegal characters at every position, all dtypes, reverse complement exhaustively to length 6, and chunk/unchunk over all sizes x overlaps x chunk counts with position-coded values are executed and compared with harness-owned encoders and slicing; numba encoder also under bounds checking.",
+ "C16": "extract_loci on synthetic FASTA/bigwig files and in-memory arrays (edges, parities, jitter, multiple locus sets, filters, gapped signals) judged against direct slicing of the generated genome/signal with an independent keep/omit list; read_meme on an enumerated grid of file layouts with changing content at one path.",
+ "C17": "extract_matching_loci on synthetic genomes with GC-controlled tiles, N stretches and bigwig signal; every returned row and every GC bin is judged against relations recomputed from the generated data (validity, disjointness, N and signal filters, bin fill bounds, exhaustion), with repetition, n_jobs 1-4 and prior calls on the same files.",
+ "C18": "count/pairwise/spacing annotation counts and k-mer counts are compared cell by cell with brute-force enumeration on small enumerated tables, boundary-gap tables (0, max-1, max, max+1, overlapping, nested, coinciding, empty spans) and all sequences up to length 6 for k 1-4, across all accepted input forms and dtypes.",
+ "C19": "Every seqlet row returned by recursive_seqlets / tfmodisco_seqlets on generated tracks with planted edge bumps is re-derived from the input (span, core length, fsum attribution, p-value bound, ordering, suppression radius, immutability); the recursive kernel also under bounds checking.",
+ "C20": "greedy_substitution on exact-integer models: the trace of applied substitutions is observed by wrapping design.substitute and every accepted step is checked against a brute-force minimum over all motifs x fitting positions with exact rational losses; stopping rule, max_iter, masks, ties and tol boundaries are covered.",
+}
+
 
 def main():
 	props = [json.loads(l) for l in open(os.path.join(HERE,
@@ -59,13 +81,14 @@ def main():
 			"engine": ENGINE_OF[pid],
 			"level_claimed": {
 				"category": mod.LEVEL,
-				"text": getattr(mod, "LEVEL_TEXT", "The real functions are "
-					"executed on enumerated small scopes and seeded hostile "
-					"workloads while an oracle independent of the "
-					"implementation judges every observed return value / "
-					"exception; the verdict is 'held on the executions "
-					"observed', with counts of what was observed in the "
-					"evidence."),
+				"text": (getattr(mod, "LEVEL_TEXT", None) or LEVEL_TEXTS.get(pid)
+					or "The real functions are executed on enumerated small "
+					"scopes and seeded hostile workloads while an oracle "
+					"independent of the implementation judges every observed "
+					"return value / exception.") + " Verdict: held on the "
+					"executions observed (counts in the evidence file), "
+					"violated with a replay file, or inconclusive when a "
+					"required monitor saw too little.",
 				"design_ref": "DESIGN.md section 3, " + pid,
 			},
 			"level_note": getattr(mod, "LEVEL_NOTE", "Trusted: the harness "
